@@ -83,7 +83,9 @@ func main() {
 	cases := flag.Int("cases", 24, "histories of the main stream")
 	pre := flag.Int("precond", 4, "histories of the precondition-violating stream")
 	blocks := flag.Int("blocks", 24, "blocks per history")
-	stream := flag.String("stream", "both", "main | precond | both")
+	stream := flag.String("stream", "both", "main | precond | roothash | both (= all)")
+	nrt := flag.Int("roothash", 10, "histories of the roothash stream (runtime rounds, timeouts, suspension)")
+	rtBlocks := flag.Int("rtblocks", 30, "blocks per roothash history")
 	replay := flag.String("replay", "", "replay one case description (JSON)")
 	verbose := flag.Bool("v", false, "")
 	flag.BoolVar(&mockFlag, "mock", false, "also generate DebugMockBackend histories (SetEpoch transactions, epoch jumps); off by default: they hit debug-only failures")
@@ -133,6 +135,12 @@ func main() {
 				hists = append(hists, histDesc{Stream: "main", HSeed: rng.U64() % 1_000_000_000, Blocks: *blocks, Mask: allFeatures})
 			}
 		}
+		if *stream == "roothash" || *stream == "both" {
+			hists = append(hists, histDesc{Stream: "roothash", HSeed: rng.U64() % 1_000_000, Blocks: 14, Mask: allFeatures, Script: scriptRtSlashReward})
+			for i := 0; i < *nrt; i++ {
+				hists = append(hists, histDesc{Stream: "roothash", HSeed: rng.U64() % 1_000_000_000, Blocks: *rtBlocks, Mask: allFeatures})
+			}
+		}
 		if *stream == "precond" || *stream == "both" {
 			for i := 0; i < *pre; i++ {
 				hists = append(hists, histDesc{Stream: "precond", HSeed: rng.U64() % 1_000_000_000, Blocks: *blocks, Mask: allFeatures})
@@ -143,6 +151,10 @@ func main() {
 	for _, h := range hists {
 		res := runHistory(h, r, true)
 		r.account(h, res)
+		if res.viol != nil && res.findingKey != "" {
+			// regression of the defect fixed by /repo commit c3a21ab (status fixed): a plain violation
+			res.viol.What = res.findingKey + " (fixed defect is back: TransferFromCommon(escrow=true) fails on a pool slashed to zero with a 100 % commission rate, halting the chain in roothash EndBlock): " + res.viol.What
+		}
 		if res.viol != nil && res.finding {
 			// regression of the defect fixed by /repo commit c9cfe37 (known_findings.json, status
 			// fixed): a plain violation, only classified by its key
@@ -153,6 +165,9 @@ func main() {
 			v := shrink(h, res.viol)
 			if res.finding && !strings.HasPrefix(v.What, findingGovWeights) {
 				v.What = findingGovWeights + " (fixed defect is back): " + v.What
+			}
+			if res.findingKey != "" && !strings.HasPrefix(v.What, res.findingKey) {
+				v.What = res.findingKey + " (fixed defect is back): " + v.What
 			}
 			r.sum.Violations = append(r.sum.Violations, v)
 		case res.viol != nil:
